@@ -18,7 +18,8 @@ LEVEL_TEXT = ("The device reports a generated thermostat state; the call passes 
               "client wrote is compared byte for byte; with an empty reply at any step the call must raise RuntimeError or return "
               "an unsuccessful response. Thorough enumerates the full state x subset x remote-kind x flag grid with one value draw each.")
 RULE = ("case = (IR-set spec, reported state, requested subset with values, update-only flag, fault step or none, ids, session, time); "
-        "non-trivial = at least one setting omitted and at least one given; distinct by the whole case.")
+        "non-trivial = at least one setting omitted and at least one given; distinct by the whole case."
+        ' A third of the non-fault cases run an earlier control call on the same API and remote objects first (clock gap 0, 1 or 60 s); half of the fault cases use one empty read while the stream goes on instead of an EOF.')
 ASSUMPTIONS = [
     "thermostat state-reply layout and frame layouts of DESIGN appendix A; IR lookup semantics of C15's reference (cases it leaves unspecified are skipped)",
     "target_temp=0 and None mean 'omitted' (the API's defaults)",
